@@ -1014,6 +1014,450 @@ def systematic_worlds(defect, triples):
     return out
 
 
+# ----------------------------------------------------------------------------- option values of every KIND (oracle only)
+#
+# The unchanged constructor stores, under every reported key, the very value the caller gave (get_dotted_key /
+# set_dotted_key): ANY Python object is accepted there, and Option('S.X') walks through any Mapping given as a
+# section.  The property's "are equal" / "shows those keys with their values" are therefore Python == on, and the
+# values of, the restricted options WHATEVER their kind: a tuple is not a list, 1 == 1.0 == True, an OrderedDict
+# equals a dict with the same items, a set is not JSON at all.  Model/DatasetClass.v has JSON values only (JList
+# cannot tell (2, 3) from [2, 3]; no floats, sets, bytes, Mapping kinds): this family is judged by the oracle alone.
+# A scenario is JSON-able (replay): values are encoded, {"$": kind, "v": ...} for everything that is not plain JSON.
+# Limits of the unchanged library that are kept OUT of the family (reported, not alarmed on):
+#   * a key and a proper prefix of it both reported while the section at / below the prefix is an immutable Mapping
+#     (MappingProxyType, a user Mapping without __setitem__): the constructor's set_dotted_key writes into it;
+#   * defaultdict sections with a default factory (reading a missing key inserts it): factory None is used.
+
+import collections
+import collections.abc
+import decimal
+import fractions
+import types as _types
+
+
+class UserMapping(collections.abc.Mapping):
+    """a caller's own read-only Mapping"""
+
+    def __init__(self, d):
+        self._d = dict(d)
+
+    def __getitem__(self, k):
+        return self._d[k]
+
+    def __iter__(self):
+        return iter(self._d)
+
+    def __len__(self):
+        return len(self._d)
+
+    def __repr__(self):
+        return f"UserMapping({self._d!r})"
+
+
+class DictSub(dict):
+    pass
+
+
+Pair = collections.namedtuple("Pair", "x y")
+NAN = float("nan")          # ONE nan object: Python's == on containers holds by identity, as for the caller's own nan
+
+MAPPING_MAKERS = {
+    "dict": dict,
+    "dsub": DictSub,
+    "odict": collections.OrderedDict,
+    "ddict": lambda d: collections.defaultdict(None, d),
+    "chain": collections.ChainMap,
+    "udict": collections.UserDict,
+    "umap": UserMapping,
+    "mproxy": lambda d: _types.MappingProxyType(dict(d)),
+}
+MAPPING_KINDS = list(MAPPING_MAKERS)
+MUTABLE_MAPPING_KINDS = [k for k in MAPPING_KINDS if k not in ("umap", "mproxy")]
+
+
+def kenc(kind, v):
+    return {"$": kind, "v": v}
+
+
+def dec(e):
+    """encoded scenario value -> a FRESH live Python value"""
+    if isinstance(e, list):
+        return [dec(x) for x in e]
+    if not isinstance(e, dict):
+        return e
+    k = e.get("$")
+    if k is None:
+        return {a: dec(x) for a, x in e.items()}
+    v = e["v"]
+    if k in MAPPING_MAKERS:
+        return MAPPING_MAKERS[k]({a: dec(x) for a, x in v.items()})
+    if k == "tuple":
+        return tuple(dec(x) for x in v)
+    if k == "ntuple":
+        return Pair(*[dec(x) for x in v])
+    if k == "deque":
+        return collections.deque(dec(x) for x in v)
+    if k == "set":
+        return set(dec(x) for x in v)
+    if k == "frozenset":
+        return frozenset(dec(x) for x in v)
+    if k == "bytes":
+        return v.encode("latin-1")
+    if k == "bytearray":
+        return bytearray(v.encode("latin-1"))
+    if k == "float":
+        return NAN if v == "nan" else float(v)
+    if k == "complex":
+        return complex(v[0], v[1])
+    if k == "decimal":
+        return decimal.Decimal(v)
+    if k == "fraction":
+        return fractions.Fraction(v[0], v[1])
+    if k == "range":
+        return range(v[0], v[1])
+    if k == "int":
+        return int(v)
+    raise AssertionError(e)
+
+
+def show_p(v, ordered=False):
+    """canonical, KIND-faithful text of a Python value (type names, no addresses); ordered: dictionary order kept"""
+    t = type(v)
+    n = t.__name__
+    if v is None or t in (bool, int, str, float, complex, range):
+        return f"{n}:{v!r}"
+    if t in (bytes, bytearray):
+        return f"{n}:{bytes(v)!r}"
+    if t in (decimal.Decimal, fractions.Fraction):
+        return f"{n}:{v}"
+    if isinstance(v, (list, tuple, collections.deque)):
+        return n + "[" + ",".join(show_p(x, ordered) for x in v) + "]"
+    if isinstance(v, (set, frozenset)):
+        return n + "{" + ",".join(sorted(show_p(x, ordered) for x in v)) + "}"
+    if isinstance(v, collections.abc.Mapping):
+        items = [f"{k!r}:{show_p(x, ordered)}" for k, x in v.items()]
+        return n + "{" + ",".join(items if ordered else sorted(items)) + "}"
+    return "?" + n
+
+
+def same_value(a, b):
+    try:
+        return show_p(a) == show_p(b) and (a is b or bool(a == b))
+    except Exception:  # noqa
+        return False
+
+
+_T = lambda *v: kenc("tuple", list(v))  # noqa: E731
+_XY = {"X": 1, "Y": _T(1, 2)}
+# each group: "the same content" written in different kinds (whether two of them are == is Python's business)
+KIND_GROUPS = [
+    [_T(2, 3), [2, 3], kenc("ntuple", [2, 3]), kenc("deque", [2, 3])],
+    [_T(_T(1, 2), _T(3)), [[1, 2], [3]], [_T(1, 2), _T(3)], _T([1, 2], [3])],
+    [_T("x", "y"), ["x", "y"]],
+    [_T(), [], kenc("set", []), kenc("frozenset", [])],
+    [kenc("set", [1, 2]), kenc("frozenset", [1, 2]), [1, 2], _T(1, 2)],
+    [kenc("bytes", "ab"), kenc("bytearray", "ab"), "ab", _T("a", "b")],
+    [1, 1.0, True, kenc("complex", [1, 0]), kenc("decimal", "1"), kenc("fraction", [1, 1]), "1"],
+    [0, 0.0, kenc("float", "-0.0"), False, None, ""],
+    [kenc("int", str(2 ** 80)), float(2 ** 80), kenc("int", str(-2 ** 80)), kenc("int", str(2 ** 80 + 1))],
+    [kenc("float", "nan"), kenc("float", "nan"), None, "nan"],
+    [kenc("float", "inf"), kenc("float", "-inf"), kenc("decimal", "Infinity"), kenc("int", str(10 ** 400))],
+    [1.5, kenc("decimal", "1.5"), kenc("fraction", [3, 2]), "1.5"],
+    [kenc("range", [0, 3]), [0, 1, 2], _T(0, 1, 2)],
+    [kenc(k, _XY) if k != "dict" else dict(_XY) for k in MAPPING_KINDS],
+    [{"X": _T(1, 2)}, {"X": [1, 2]}, kenc("odict", {"X": _T(1, 2)}), kenc("mproxy", {"X": [1, 2]})],
+    [[kenc("odict", {"X": 1})], [{"X": 1}], _T({"X": 1}), _T(kenc("umap", {"X": 1}))],
+    [kenc("odict", {"X": 1, "Y": 2}), kenc("odict", {"Y": 2, "X": 1}), {"Y": 2, "X": 1}],
+    [3, "u", None, [1], 7],           # plain JSON values, so that ordinary differences are in the mix too
+]
+KIND_LEAVES = ["A", "B", "Q", "S.X", "S.Y", "S.Z", "T.U.V", "T.U.W", "T.K"]
+KIND_SECTIONS = ["S", "T", "T.U"]
+KIND_MEMBER_KEYS = ["A", "B", "S", "S.X", "S.Y", "T.U", "T.U.V", "T.K", "T"]
+
+
+def kinds_render(tree):
+    """tree = {"leaves": {path: [group, member]}, "sections": {path: kind}, "order": {path|"": [names]}} -> encoded"""
+    def build(prefix):
+        out = {}
+        for name in tree["order"][prefix]:
+            p = f"{prefix}.{name}" if prefix else name
+            if p in tree["sections"]:
+                body = build(p)
+                k = tree["sections"][p]
+                out[name] = body if k == "dict" else kenc(k, body)
+            else:
+                g, m = tree["leaves"][p]
+                out[name] = KIND_GROUPS[g][m]
+        return out
+    return build("")
+
+
+def must_be_mutable(section, member_keys):
+    """the unchanged constructor writes into the caller's section object when a key and a proper prefix of it are both
+    reported and the section lies at / below the prefix and above the longer key"""
+    for k1 in member_keys:
+        for k2 in member_keys:
+            if k2.startswith(k1 + ".") and (section == k1 or section.startswith(k1 + ".")) and k2.startswith(section + "."):
+                return True
+    return False
+
+
+def gen_kinds_world(rng, wid):
+    tagc = itertools.count(1)
+    n = rng.randint(2, 5)
+    keys = rng.sample(KIND_MEMBER_KEYS, n)
+    names = rng.sample(NAME_POOL, n + 2)
+    body = []
+    for name, key in zip(names, keys):
+        has = rng.random() < 0.3
+        body.append([name, dict(kind="opt", opt=dict(key=key, has_default=has, default=rng.choice([7, None, [1, 2]]) if has else None))])
+    if rng.random() < 0.3:      # a dataset member (its cache fingerprint is JSON: some kinds make the MEMBER itself fail)
+        body.append([names[n], dict(kind="data", tag=next(tagc), a=dict(key=rng.choice(["A", "S.X"]), has_default=False, default=None), b=None)])
+    if rng.random() < 0.4:
+        body.append([names[n + 1], dict(kind="const", v=rng.choice([5, "vw", None]))])
+    classes = [dict(id=1, name=f"K{wid}C1", body=body, plain_base=None, parent=None),
+               dict(id=2, name=f"K{wid}C2", body=copy.deepcopy(body), plain_base=None, parent=None)]
+    member_keys = [m["opt"]["key"] for _, m in body if m["kind"] == "opt"] + [m["a"]["key"] for _, m in body if m["kind"] == "data"]
+
+    def sec_kind(p):
+        return rng.choice(MUTABLE_MAPPING_KINDS if must_be_mutable(p, member_keys) else MAPPING_KINDS)
+
+    def leaf():
+        g = rng.randrange(len(KIND_GROUPS))
+        return [g, rng.randrange(len(KIND_GROUPS[g]))]
+
+    base = {"leaves": {p: leaf() for p in KIND_LEAVES}, "sections": {p: sec_kind(p) for p in KIND_SECTIONS},
+            "order": {"": ["A", "B", "Q", "S", "T"], "S": ["X", "Y", "Z"], "T": ["U", "K"], "T.U": ["V", "W"]}}
+    trees = [base]
+    perm = copy.deepcopy(base)
+    for k in perm["order"]:
+        rng.shuffle(perm["order"][k])
+    trees.append(perm)
+    for p in KIND_LEAVES:                       # the same content in another kind, at ONE (relevant or irrelevant) place
+        t = copy.deepcopy(base)
+        g, m = t["leaves"][p]
+        t["leaves"][p] = [g, rng.choice([i for i in range(len(KIND_GROUPS[g])) if i != m])]
+        trees.append(t)
+    for p in rng.sample(KIND_LEAVES, 3):        # other content at one place
+        t = copy.deepcopy(base)
+        t["leaves"][p] = leaf()
+        trees.append(t)
+    for p in KIND_SECTIONS:                     # a section handed over as another kind of Mapping
+        t = copy.deepcopy(base)
+        t["sections"][p] = sec_kind(p)
+        trees.append(t)
+    t = copy.deepcopy(base)                     # every value in another kind at once
+    for p in KIND_LEAVES:
+        g, m = t["leaves"][p]
+        t["leaves"][p] = [g, (m + 1) % len(KIND_GROUPS[g])]
+    trees.append(t)
+    t = copy.deepcopy(base)                     # a relevant value missing
+    drop = rng.choice(KIND_LEAVES)
+    parent, _, name = drop.rpartition(".")
+    t["order"][parent].remove(name)
+    trees.append(t)
+    return dict(classes=classes, dicts=[], kinds_dicts=[kinds_render(t) for t in trees], stream="kinds")
+
+
+def restrict_tree(o, paths):
+    """own_restrict, keeping apart the dictionaries made by the restriction (node) and the caller's values (leaf)"""
+    out = {}
+    for seg in dict.fromkeys(p[0] for p in paths):
+        tails = [p[1:] for p in paths if p[0] == seg]
+        val = o[seg]
+        out[seg] = ("leaf", val) if any(len(t) == 0 for t in tails) else restrict_tree(val, tails)
+    return ("node", out)
+
+
+def tree_value(t):
+    return t[1] if t[0] == "leaf" else {k: tree_value(x) for k, x in t[1].items()}
+
+
+def renderings_iter(t):
+    """every text "{k: v, ...}" of the restricted options with the caller's values printed by their own repr, over all
+    orders of the dictionaries made by the restriction; the first one is in sorted key order"""
+    if t[0] == "leaf":
+        yield repr(t[1])
+        return
+    items = sorted(t[1].items())
+    for perm in itertools.permutations(range(len(items))):
+        for combo in itertools.product(*[[f"{items[i][0]!r}: {s}" for s in renderings_iter(items[i][1])] for i in perm]):
+            yield "{" + ", ".join(combo) + "}"
+
+
+def kinds_repr_ok(cls, inst, tree):
+    """repr shows the restricted options: Name(<text>) where <text> is the restricted options printed with the caller's
+    values shown by their own repr (any order of the dictionaries the restriction makes), or reads back
+    (ast.literal_eval) kind for kind as that text does"""
+    try:
+        r = repr(inst)
+    except Exception:  # noqa
+        return False
+    head = cls.__name__ + "("
+    if not (r.startswith(head) and r.endswith(")")):
+        return False
+    inner = r[len(head):-1]
+    first = next(renderings_iter(tree))
+    if inner == first:
+        return True
+    try:
+        shown = ast.literal_eval(inner)
+        return isinstance(shown, dict) and show_p(shown) == show_p(ast.literal_eval(first))
+    except Exception:  # noqa
+        pass
+    return any(inner == x for x in itertools.islice(renderings_iter(tree), 20000))
+
+
+def kinds_class_op(cls, method, e):
+    work = dec(e)
+    before = show_p(work, True)
+    try:
+        r = getattr(cls, method)(work)
+        got = ("ok", None if method == "validate" else set(r))
+    except Exception as ex:  # noqa
+        got = ("err", canon_err(ex))
+    return got, show_p(work, True) == before
+
+
+def kinds_single(w, ci, e, bad):
+    """the property's statement on one (class, options with values of arbitrary kinds); returns (#checks, built?)"""
+    cls, mem, objs = w.classes[ci], w.members(ci), w.objs[ci]
+    vis = sorted(n for n in mem if not n.startswith("__"))
+    checks = 0
+    direct, first_err = {}, None
+    for n in vis:
+        k, v = direct_eval(objs[n], mem[n], dec(e))
+        direct[n] = (k, v)
+        if k == "err" and first_err is None:
+            first_err = (n, v)
+    work = dec(e)
+    before = show_p(work, True)
+    kind, inst = construct(cls, work)
+    checks += 2
+    if show_p(work, True) != before:
+        bad("the constructor modified the caller's dictionary", after=show_p(work, True))
+    if first_err is not None:
+        if not (kind == "member" and inst == first_err[1]):
+            bad("a member's evaluation fails but the constructor does not fail with the first failing member's error",
+                member=first_err[0], expected=first_err[1], got=[kind, inst if kind != "ok" else "instance"])
+    elif kind != "ok":
+        bad("every member evaluates but instantiation fails", got=[kind, inst])
+    if kind == "ok":
+        for n in vis:
+            checks += 1
+            try:
+                got = getattr(inst, n)
+            except Exception as ex:  # noqa
+                bad("reading an instance attribute raises", member=n, error=type(ex).__name__)
+                continue
+            if not (direct[n][0] == "ok" and same_value(got, direct[n][1])):
+                bad("instance attribute differs from the member's own evaluation / constant", member=n,
+                    got=show_p(got), want=show_p(direct[n][1]) if direct[n][0] == "ok" else direct[n][1])
+        k2, inst2 = construct_eval(cls, dec(e))
+        checks += 1
+        if not (k2 == "ok" and safe_eq(inst2, inst) == "T" and safe_ne(inst2, inst) == "F"
+                and all(same_value(getattr(inst2, n, None), getattr(inst, n, None)) for n in vis)):
+            bad("cls.evaluate(options) differs from cls(options)")
+    reported = None
+    for method in ("keys", "explain"):
+        want = union_of(w, ci, method, dec(e))
+        got, untouched = kinds_class_op(cls, method, e)
+        checks += 2
+        if got != want:
+            bad(f"class {method}() is not the union over the members", got=repr(got), want=repr(want))
+        if not untouched:
+            bad(f"{method}() modified the caller's dictionary")
+        if method == "keys" and got[0] == "ok":
+            reported = got[1]
+    vfail = None
+    for n in sorted(mem):
+        if n.startswith("__") or mem[n]["kind"] in ("const", "value"):
+            continue
+        try:
+            objs[n].validate(dec(e))
+        except Exception as ex:  # noqa
+            vfail = canon_err(ex)
+            break
+    got, untouched = kinds_class_op(cls, "validate", e)
+    checks += 2
+    if (got[1] if got[0] == "err" else None) != vfail:
+        bad("class validate() does not pass exactly when every member's validate passes (first failing member's error)",
+            got=repr(got), want=vfail)
+    if not untouched:
+        bad("validate() modified the caller's dictionary")
+    if kind == "ok" and reported is not None:
+        checks += 1
+        try:
+            tree = restrict_tree(dec(e), [k.split(".") for k in sorted(reported)])
+        except Exception as ex:  # noqa
+            bad("instance built but the reported keys cannot be read from the options", error=repr(ex))
+            return checks, False
+        if not kinds_repr_ok(cls, inst, tree):
+            bad("repr does not show the options restricted to the reported keys (values of the kinds that were given)",
+                repr=safe_repr(inst), want=show_p(tree_value(tree)))
+    return checks, kind == "ok"
+
+
+def kinds_pairs(w, cis, encs, viol, scen, stats):
+    """== / != over all pairs: same class -> exactly Python's == on the restricted options; other class -> never"""
+    built = {}
+    for ci in cis:
+        cls = w.classes[ci]
+        for di, e in enumerate(encs):
+            if ci > 0 and di >= 4:         # the twin class: a few instances are enough for "other class -> never equal"
+                break
+            kind, inst = construct(cls, dec(e))
+            if kind != "ok":
+                continue
+            try:
+                o = dec(e)
+                r = tree_value(restrict_tree(o, [k.split(".") for k in sorted(cls.keys(dec(e)))]))
+            except Exception:  # noqa
+                continue
+            built[(ci, di)] = (inst, r)
+    checks = 0
+    for (ca, da), (ia, ra) in built.items():
+        for (cb, db), (ib, rb) in built.items():
+            checks += 1
+            got, ne = safe_eq(ia, ib), safe_ne(ia, ib)
+            if ca == cb:
+                try:
+                    want = "T" if ra == rb else "F"
+                except Exception:  # noqa
+                    continue
+                if want == "T" and show_p(ra) != show_p(rb):
+                    stats["kinds_equal_though_written_in_other_kinds"] += 1
+                if want == "F":
+                    stats["kinds_unequal"] += 1
+            else:
+                want = "F"
+            if got != want or ne == got:
+                viol.append(dict(desc=("instance equality does not follow Python's == on the restricted options (values of arbitrary kinds)"
+                                       if ca == cb else "instances of different classes compare equal"),
+                                 finding=None, **scen, class_a=ca, class_b=cb, dict_a=encs[da], dict_b=encs[db],
+                                 restricted_a=show_p(ra), restricted_b=show_p(rb), eq=got, ne=ne, want=want))
+    return checks
+
+
+def run_kinds_world(spec, viol, stats):
+    w = World(spec)
+    encs = spec["kinds_dicts"]
+    cis = list(range(len(spec["classes"])))
+    checks = 0
+    for di, e in enumerate(encs):
+        for ci in cis[:1] if di % 6 else cis:
+            scen = dict(world=spec, cls=ci, kinds_dict_index=di, options_encoded=e)
+
+            def bad(desc, **kw):
+                viol.append(dict(desc=desc + " [option values of arbitrary kinds]", finding=None, **scen, **kw))
+            n, ok = kinds_single(w, ci, e, bad)
+            checks += n
+            stats["kinds_scenarios"] += 1
+            stats["kinds_built" if ok else "kinds_not_built"] += 1
+    checks += kinds_pairs(w, cis, encs, viol, dict(world=spec, cls=None), stats)
+    return checks
+
+
 # ----------------------------------------------------------------------------- run
 
 def zone_L(keys):
@@ -1118,6 +1562,12 @@ def run(ctx):
             if c["parent"] is not None:
                 stats["classes_deriving_from_dataset_class"] += 1
         checks += run_world(w, spec, cases, viol, stats, distinct, pending_known, alts)
+    # option values of every kind the constructor accepts (oracle only; generated after everything else: the
+    # streams above are what they were)
+    for i in range(40 if ctx.quick else 600):
+        kspec = gen_kinds_world(rng, i)
+        stats["worlds_kinds"] += 1
+        checks += run_kinds_world(kspec, viol, stats)
     model_lines = ctx.coq_eval("Cases_C19", REQ, "", [c[0] for c in cases], shard=150)
     mism = []
     for (expr, line, scen), ml in zip(cases, model_lines):
@@ -1156,7 +1606,10 @@ def run(ctx):
                 "instance is built from the same object (through cls(...) or cls.evaluate(...), with or without keys/validate/explain having "
                 "seen the object), and only then the first instance is read, printed and compared; all pairs again with every instance built "
                 "from ONE dictionary object refilled in place. The model has values only, so those observations must equal the model line of "
-                "the plain case.",
+                "the plain case. Oracle only (outside the model's JSON values): option values of every kind the constructor accepts under a reported "
+                "key (tuples, namedtuples, sets, frozensets, bytes, big integers, floats incl. nan/inf, complex, Decimal, Fraction, ranges, deques, every "
+                "kind of Mapping as value and as section), dictionaries differing in one place by the same content written in another kind: members, "
+                "class operations, ==/!= exactly Python's == on the restricted options, repr with the values of the kinds that were given.",
         "samples": samples,
         "traces_validated_against_impl": len(cases) + len(alts),
         "correspondence_mismatches": mism[:5],
@@ -1198,6 +1651,8 @@ def slim_v(v):
     out = {k: x for k, x in v.items() if k not in ("world", "case_index", "zone_hint", "_first")}
     w = v["world"]
     out["world"] = dict(classes=w["classes"], dicts=w["dicts"], stream=w.get("stream"))
+    if "kinds_dicts" in w:
+        out["world"]["kinds_dicts"] = w["kinds_dicts"]
     return out
 
 
@@ -1206,6 +1661,12 @@ def replay(ctx, payload):
     spec = payload.get("world")
     if spec is None:
         return True, {"note": "payload names no scenario (broken obligation or correspondence); re-run the check", "payload": payload}
+    if spec.get("kinds_dicts") is not None:
+        kviol = []
+        run_kinds_world(dict(classes=spec["classes"], dicts=[], kinds_dicts=spec["kinds_dicts"], stream="kinds"), kviol,
+                        collections.Counter())
+        return bool(kviol), {"oracle_violations": [slim_v(v) for v in kviol[:3]], "correspondence_mismatches": [],
+                             "note": "option values of arbitrary kinds: oracle only (outside Model/DatasetClass.v)"}
     spec = dict(classes=spec["classes"], dicts=spec["dicts"], stream=spec.get("stream", "replay"))
     w = World(spec)
     cases, viol, pending, alts = [], [], [], []
